@@ -6,6 +6,7 @@ import sys
 
 import jsonpath_rfc9535 as jsonpath
 from jsonpath_rfc9535.__about__ import __version__
+from jsonpath_rfc9535.exceptions import JSONPathError
 from jsonpath_rfc9535.exceptions import JSONPathIndexError
 from jsonpath_rfc9535.exceptions import JSONPathSyntaxError
 from jsonpath_rfc9535.exceptions import JSONPathTypeError
@@ -120,11 +121,17 @@ def handle_path_command(args: argparse.Namespace) -> None:  # noqa: PLR0912, D10
             raise
         sys.stderr.write(f"index error: {err}\n")
         sys.exit(1)
+    except JSONPathError as err:
+        # Any other error in the query, like an unknown function name.
+        if args.debug:
+            raise
+        sys.stderr.write(f"error: {err}\n")
+        sys.exit(1)
 
     try:
         data = json.load(args.file)
         values = path.find(data).values()
-    except json.JSONDecodeError as err:
+    except (json.JSONDecodeError, UnicodeDecodeError) as err:
         if args.debug:
             raise
         sys.stderr.write(f"target document json decode error: {err}\n")
@@ -134,6 +141,12 @@ def handle_path_command(args: argparse.Namespace) -> None:  # noqa: PLR0912, D10
         if args.debug:
             raise
         sys.stderr.write(f"type error: {err}\n")
+        sys.exit(1)
+    except JSONPathError as err:
+        # Evaluation-time errors, like exceeding the recursion limit.
+        if args.debug:
+            raise
+        sys.stderr.write(f"error: {err}\n")
         sys.exit(1)
 
     indent = INDENT if args.pretty else None
